@@ -22,7 +22,7 @@
     next to each stands the exact characterisation that does hold. *)
 From Coq Require Import List NArith Bool Arith Strings.String.
 From Atlas Require Import Base.Bytes Dir.DirModel Dir.DirProofs Dir.DirDetect Dir.DirEdits Dir.DirGlob
-  Dir.DirRefuted Dir.DirWriters Dir.DirExact Dir.DirToyHash.
+  Dir.DirRefuted Dir.DirWriters Dir.DirExact Dir.DirReason Dir.DirToyHash.
 Import ListNotations.
 
 Section C06.
@@ -119,6 +119,58 @@ Theorem C06_single_edit_detected :
   is_checksum_error (validate HS d' (Some (marshal HS (newhash HS d)))) \/
   collision HS (hash_inputs HS d ++ hash_inputs HS d').
 Proof. exact (single_edit_detected HS HS_shape). Qed.
+
+(** WHAT Validate reports for a single edit of a directory without
+    sum-ignored files, at every position [length a] of the edit: line, total,
+    byte position ([pos_of a] = 48 + sum over the files in front of (len name
+    + 50)), file and reason of the *ChecksumError -- or a collision.
+      content edited -> that file, ReasonEdited;  removed -> that file,
+      ReasonRemoved;  renamed in place -> the OLD name, ReasonRemoved;
+      added in front of [b] (at the end if b = []) -> the NEW file, ReasonAdded. *)
+Theorem C06_reason_edited :
+  forall (a : list file) (n c c' : bytes) (b : list file),
+  let d := a ++ (n, c) :: b in let d' := a ++ (n, c') :: b in
+  names_ok d = true -> names_wf d = true -> NoDup (map fst d) ->
+  no_ignored d = true -> no_ignored d' = true -> c' <> c ->
+  validate HS d' (Some (marshal HS (newhash HS d)))
+    = VChecksum (List.length a + 2) (List.length d) (pos_of a) n Edited \/
+  collision HS (hash_inputs HS d ++ hash_inputs HS d').
+Proof. exact (reason_edited HS HS_shape). Qed.
+
+Theorem C06_reason_removed :
+  forall (a : list file) (n c : bytes) (b : list file),
+  let d := a ++ (n, c) :: b in let d' := a ++ b in
+  names_ok d = true -> names_wf d = true -> NoDup (map fst d) -> no_ignored d = true ->
+  validate HS d' (Some (marshal HS (newhash HS d)))
+    = VChecksum (List.length a + 2) (List.length d) (pos_of a) n Removed \/
+  collision HS (hash_inputs HS d ++ hash_inputs HS d').
+Proof. exact (reason_removed HS HS_shape). Qed.
+
+Theorem C06_reason_renamed :
+  forall (a : list file) (n n' c : bytes) (b : list file),
+  let d := a ++ (n, c) :: b in let d' := a ++ (n', c) :: b in
+  names_ok d = true -> names_wf d = true -> NoDup (map fst d) -> no_ignored d = true ->
+  name_wf n' = true -> ~ In n' (map fst d) ->
+  validate HS d' (Some (marshal HS (newhash HS d)))
+    = VChecksum (List.length a + 2) (List.length d) (pos_of a) n Removed \/
+  collision HS (hash_inputs HS d ++ hash_inputs HS d').
+Proof. exact (reason_renamed HS HS_shape). Qed.
+
+Theorem C06_reason_added :
+  forall (a : list file) (n' c' : bytes) (b : list file),
+  let d := a ++ b in let d' := a ++ (n', c') :: b in
+  names_ok d = true -> names_wf d' = true -> NoDup (map fst d) ->
+  no_ignored d = true -> sum_ignored c' = false -> ~ In n' (map fst d) ->
+  validate HS d' (Some (marshal HS (newhash HS d)))
+    = VChecksum (List.length a + 2) (List.length d) (pos_of a) n' Added \/
+  collision HS (hash_inputs HS d ++ hash_inputs HS d').
+Proof. exact (reason_added HS HS_shape). Qed.
+
+(** [embedded_hash] (third disjunct of the _glob/_exact theorems) is decidable
+    for the directory at hand; the harness evaluates it on every original. *)
+Theorem C06_embedded_hash_decidable :
+  forall d : list file, embedded_hashb HS d = true <-> embedded_hash HS d.
+Proof. exact (embedded_hashb_spec HS). Qed.
 
 (** Exact characterisation for an original directory without sum-ignored
     files against ANYTHING Dir.Files() can return ([all_sql]: names end in
@@ -285,6 +337,11 @@ Print Assumptions C06_detect_glob.
 Print Assumptions C06_detect_plain.
 Print Assumptions C06_detect_plain_checksum_error.
 Print Assumptions C06_single_edit_detected.
+Print Assumptions C06_reason_edited.
+Print Assumptions C06_reason_removed.
+Print Assumptions C06_reason_renamed.
+Print Assumptions C06_reason_added.
+Print Assumptions C06_embedded_hash_decidable.
 Print Assumptions C06_detect_plain_exact.
 Print Assumptions C06_detect_plain_exact_checksum_error.
 Print Assumptions C06_detect_wf.
@@ -354,6 +411,13 @@ Example ex_plain_exact :
   all_sql d1 = true /\ sorted_strict d1 = true /\
   validate toy_hs d1 (ex_sum ex_p) = VChecksum 2 2 48 (bs "1_a.sql") Edited /\
   all_sql d2 = true /\ sorted_strict d2 = true /\ validate toy_hs d2 (ex_sum ex_p) = VOk.
+Proof. vm_compute. repeat split; reflexivity. Qed.
+
+(* 3'': reasons/positions (the values of ex_plain are instances of the C06_reason theorems), and the
+   originals of these examples quote none of their own stream hashes *)
+Example ex_reason :
+  pos_of [(bs "1_a.sql", bs "CREATE TABLE a;" ++ [NL])] = 48 + 56 /\
+  embedded_hashb toy_hs ex_p = false /\ embedded_hashb toy_hs ex_d = false.
 Proof. vm_compute. repeat split; reflexivity. Qed.
 
 (* 4: an edited hash in a sum line is refused *)
